@@ -9,17 +9,22 @@ LEVEL_TEXT["C07"] = (
     "-(len b - 1)..len a - 1 -- both for EVERY transform pair satisfying the circular convolution / correlation theorem at the one length used, "
     "a hypothesis that is discharged for the exact DFT pair (Lib/C07Dft: orthogonality of roots of unity), i.e. what remains assumed is "
     "fft = DFT / ifft = inverse DFT (C01/C02). Tie: correspondence of the four hand-written models with the library on tap counts 2..1024 x "
-    "5 coefficient kinds x 6 input kinds x single/multi-call framings (FirFilter/MAFilter bit-exact, FFT paths to 1e-12 of ||h||*||x||). "
+    "5 coefficient kinds x 6 input kinds x single/multi-call framings; the driver runs the FftFilter / xcorr models with the transform pair "
+    "instantiated by the C01 model of the library's own plans (Fft.fftC / Fft.ifftWith (Fft.fftC ..), literals regenerated) -- the very "
+    "instantiation the `*_total_*` theorems are about -- and ALL eight tags (FirFilter, MAFilter, FftFilter, xcorr) are compared BIT-EXACT "
+    "(tolerance 0; observed deviation 0 on every case, seeds 1-3 quick and seed 1 thorough). "
     "Measured only: rounding -- long-double defining sums with the a-priori bound of the algorithm class (direct: (nh+8) eps sum|terms| per output; "
     "FFT paths: (8+log2 N) eps ||h|| ||x_block|| normwise; MAFilter: (1.5n+4) eps sum_{2n}|x|/n)."
 )
 
 PROPS["C07"] = {
     "gen": ["Cmplx"],
-    "lean_props": "DspVerif.Props.C07",
+    "lean_props": ["DspVerif.Props.C07", "DspVerif.Props.C07Total"],
     "harness": [{"src": "c07.cpp", "cfg": "rel",
+                 # fft*/xc*: the model runs the C01 model of the library's plans in the library's operation order -> worst observed
+                 # deviation 0 (seeds 1,2,3 quick; seed 1 thorough); 100 x 0 = 0: compared bit for bit, no scale token
                  "tol": {"firR": (1e-13, 0.0), "firC": (1e-13, 0.0), "maR": (1e-13, 0.0), "maC": (1e-13, 0.0),
-                         "fftR": (1e-12, 0.0), "fftC": (1e-12, 0.0), "xcR": (1e-10, 0.0), "xcC": (1e-10, 0.0)}}],
+                         "fftR": (0.0, 0.0), "fftC": (0.0, 0.0), "xcR": (0.0, 0.0), "xcC": (0.0, 0.0)}}],
     "rule": "FirFilter and FftFilter: quick = 48 tap counts in 2..1024 (powers of two +-1, 1000, 1023, 1024, 24 random), thorough = EVERY tap count 2..1024; "
             "x {real, complex} x coefficient kind {random, symmetric, sparse, single tap first, single tap last} x input kind {gauss, impulsive, "
             "dynamic range 2^+-40 per sample / per segment, DC, unit impulse} x input length {0, 1, 2, nh-1, nh, nh+1, block-1, block, block+1, "
@@ -36,7 +41,7 @@ PROPS["C07"] = {
                   "normwise per block because an FFT convolution has no componentwise error bound",
     "trusted_base": TB_COMMON + [
         "the library's fft/ifft at power-of-two lengths are the DFT and its inverse (properties C01/C02): T07.2/T07.3 take the circular convolution / correlation theorem of the transform pair as hypothesis and discharge it for the exact DFT",
-        "the driver instantiates the transform parameter of the FftFilter/xcorr models with its own radix-2 FFT at Float (compared with the library to 1e-12 of ||h||*||x||)",
+        "the driver instantiates the transform parameters of the FftFilter/xcorr models with the C01 model of the library's plans at Float (Fft.fftC / Fft.ifftWith, the instantiation of the `*_total_*` theorems; bit-exact agreement with the library); that this hand-written FFT model is the code is C01's correspondence run",
         "long double (x87 80-bit) evaluation of the defining sums is taken as exact relative to the double-precision bounds",
     ],
     "assumptions": ["tap count >= 1 (FirFilter's history length h.size()-1), MAFilter length n >= 1, xcorr operands non-empty: the property's domain (2..1024 taps, lengths >= 1)",
